@@ -74,11 +74,13 @@ def items(tier):
         for g in rungrid.graphs_upto((5,), shared_only_from=5):
             for kinds in (["cmd"] * 5, ["exp", "cmd", "exp", "cmd", "exp"]):
                 add({"g": g, "kinds": kinds, "pars": [True] * 5, "jobs": 3, "fails": {}}, 0)
+    for case in rungrid.conformance_cases(tier, kindsets=(["cmd"] * 3, ["exp"] * 3, ["combine", "exp", "cmd"], ["group", "cmd", "exp"])):
+        out.append({"case": case, "bound": 0, "conform": True})
     return out
 
 
 def run_item(item, tier):
-    return rungrid.explore_case(item["case"], item["bound"], [mon], max_exec=200000)
+    return rungrid.explore_case(item["case"], item["bound"], [mon], max_exec=200000, conform=bool(item.get("conform")))
 
 
 def replay(artefact):
